@@ -2123,6 +2123,21 @@ class CatchExceptionDataset(Dataset):
             LOG.info(f'{self.__class__.__name__} filtered {catched_count} of {total_count} examples (catched expections: {types}).')
 
 
+class _FilteredExample:
+    """
+    Placeholder that the prefetch workers return for an example that raised one
+    of the `catch_filter_exception` exceptions.
+
+    It pickles to the module level singleton `_FILTERED_EXAMPLE`, hence it
+    keeps its identity when a worker process sends it back to the main process.
+    """
+    def __reduce__(self):
+        return '_FILTERED_EXAMPLE'
+
+
+_FILTERED_EXAMPLE = _FilteredExample()
+
+
 class PrefetchDataset(Dataset):
     def __init__(
             self,
@@ -2218,7 +2233,7 @@ class PrefetchDataset(Dataset):
             else:
                 catch_filter_exception = self.catch_filter_exception
 
-            unique_object = object()
+            unique_object = _FILTERED_EXAMPLE
 
             if with_key:
                 def catcher(key):
